@@ -153,6 +153,15 @@ def r10_4_constants(ctx, prog, rule="R10.4"):
         val = C.expr_of(pa, w[0][2][1]) if ok else None
         exp = ("op:BitXor", ("crc32::checksum", ("crc32::new", "top:const:crc::CRC_32_ISO_HDLC"), "top:ctx.encoded_msg.*"), XOR)
         ok = ok and same(val, exp) and "ctx.raw_value" in repr(w[0][2][0])
+        if not w:
+            # written some other way (`[..4].copy_from_slice(&v.to_be_bytes())`): the byte map of the value must be the four
+            # big-endian bytes of the same expression
+            from . import coverage_rules as K
+            ivs, probs = K.intervals(prog, pa, "obj:ctx.raw_value")
+            bs = [K.byte_value(ivs, i) for i in range(4)]
+            if all(isinstance(x, tuple) and x[0] == "be-byte" and x[3] == 4 for x in bs) and [x[2] for x in bs] == [0, 1, 2, 3] and not probs:
+                val = bs[0][1]
+                ok = all(same(x[1], exp) for x in bs)
         ctx.ob(rule, "post_encode:value", ok, "writes %s" % show(val), info["where"], replay=None if ok else pa.describe())
     ctx.floor(rule, "post_encode paths", n, 3)
     paths, info = _paths(ctx, prog, "<%s as stun_rs::Decode<'_>>::decode" % DFP_T, "x")
@@ -1091,21 +1100,24 @@ def r4_7_input_text(ctx, prog, rule="R4.7"):
     head = heads[0]
     # the two quantities, found by dataflow rather than by name: the prefix end is what flows into the bound of
     # check_buffer_boundaries(buffer, _), the patched length is what flows into Option::ok_or_else(_)
-    def operand_locals(x):
-        """(local, field) pairs an operand / rvalue reads; field = index of a leading tuple-field projection, else None"""
+    def place_item(pl, rest=()):
+        """(local, field path) of a place: the field indices of its projections (downcasts and derefs skipped), then `rest`"""
+        flds = tuple(pe.get("i") for pe in pl.get("p", []) if pe.get("k") == "field" and pe.get("name") != "pos" and pe.get("i") is not None)
+        return (pl["l"], flds + tuple(rest))
+
+    def operand_locals(x, rest=()):
+        """(local, field path) items an operand / rvalue reads"""
         out = set()
         if isinstance(x, dict):
             pl = x.get("place")
             if isinstance(pl, dict) and "l" in pl:
-                pr = pl.get("p", [])
-                fld = pr[0].get("i") if pr and pr[0].get("k") == "field" and pr[0].get("name") != "pos" else None
-                out.add((pl["l"], fld))
+                out.add(place_item(pl, rest))
             for k, v in x.items():
                 if k != "place":
-                    out |= operand_locals(v)
+                    out |= operand_locals(v, rest)
         elif isinstance(x, list):
             for v in x:
-                out |= operand_locals(v)
+                out |= operand_locals(v, rest)
         return out
 
     def reads_iter_pos(rv):
@@ -1125,15 +1137,17 @@ def r4_7_input_text(ctx, prog, rule="R4.7"):
     consts = {}
 
     def back_slice(seeds):
-        """flow-insensitive backward slice over whole-local assignments, sensitive to the fields of tuple aggregates:
-        -> (tracked (local, field) pairs, blocks whose statement / getter call reads iter.pos); constants assigned to
-        sliced locals are collected in consts[seed set]"""
+        """flow-insensitive backward slice over whole-local assignments, sensitive to field paths through tuple / enum
+        aggregates (`found = Some((start, end))` .. `let Some((s, e)) = found`): -> (tracked (local, path) items, blocks
+        whose statement / getter call reads iter.pos); constants assigned to sliced locals are collected in consts[seeds]"""
         locs = set(seeds)
         src = set()
         cs = consts.setdefault(frozenset(seeds), set())
         changed = True
-        while changed:
+        rounds = 0
+        while changed and rounds < 60:
             changed = False
+            rounds += 1
             for b2, blk in enumerate(body.blocks):
                 if blk["cleanup"]:
                     continue
@@ -1141,17 +1155,19 @@ def r4_7_input_text(ctx, prog, rule="R4.7"):
                     if st["k"] != "assign" or st["place"]["p"]:
                         continue
                     L = st["place"]["l"]
-                    for (l0, f0) in [x for x in locs if x[0] == L]:
+                    for (l0, path) in [x for x in locs if x[0] == L]:
                         rv = st["rv"]
-                        if f0 is not None and rv["k"] == "aggregate" and f0 < len(rv.get("ops", [])):
-                            rv = rv["ops"][f0]              # only the component that was read
+                        rest = path
+                        while rv.get("k") == "aggregate" and rest and isinstance(rest[0], int) and rest[0] < len(rv.get("ops", [])):
+                            rv, rest = rv["ops"][rest[0]], rest[1:]          # only the component that is read
                         if reads_iter_pos(rv):
                             src.add(b2)
                         if rv.get("k") == "use" and rv["op"]["k"] == "const" and "bits" in rv["op"]:
                             cs.add(int(rv["op"]["bits"]))
                         if rv.get("k") == "const" and "bits" in rv:
                             cs.add(int(rv["bits"]))
-                        new = operand_locals(rv) - locs
+                        keep = rest if rv.get("k") in ("use", "copy", "move") or "place" in rv else ()
+                        new = {x for x in operand_locals(rv, keep) if len(x[1]) <= 6} - locs
                         if new:
                             locs |= new
                             changed = True
